@@ -1,13 +1,14 @@
 import Chewing.Proofs.C01Select
 /-!
-C01, part 8: `PhraseSelector::next` (Down / Space on the last page) terminates without panic: the range
-shrinks towards the single syllable at its fixed end, which has a word; it wraps around at most once.
+C01, part 8: `PhraseSelector::next` (Down / Space on the last page) terminates without panic: a bounded loop
+over ranges that stay non-empty runs of syllables; without any range that has a phrase it returns to the
+range it started from (F03 repair).
 Then Down/Space, j/k (`retarget`) and the whole of `Selecting::next` for lists that are not symbol tables.
 -/
 namespace Chewing.C01
 open Chewing Chewing.C04 Chewing.C05 Chewing.C06
 
-variable {D L : Type} {env : Env D L} {G : D → Prop}
+variable {D L : Type} {env : Env D L} {G : D → Prop} {w : Prop}
 
 /-- the part of `PhraseOK` that does not mention the shared state -/
 structure RangeOK (s : PhraseSel) : Prop where
@@ -22,139 +23,77 @@ structure NextPost (s s' : PhraseSel) : Prop where
   range : RangeOK s'
   keep : Keep s s'
 
-theorem single_true (d : D) (s : PhraseSel) (hr : RangeOK s) (h1 : s.end_ = s.begin_ + 1)
-    (hw : ∀ c, Sym.syl c ∈ s.com.symbols → env.hasPhrase d [c] s.strategy = true) :
-    PhraseSel.rangeHasPhrase env s d s.begin_ s.end_ = .ok true := by
-  obtain ⟨k, hk⟩ := hr.syl s.begin_ (Nat.le_refl _) hr.lt
-  rw [h1]
-  exact rangeHasPhrase_single s d hk (hw k (mem_of_getElem? hk)) (by have := hr.le; omega)
-
-/-- the shrinking phase (no wrap-around): at least two syllables in the range -/
-theorem next_go_shrink (d : D) : ∀ (fuel : Nat) (s : PhraseSel), RangeOK s → s.begin_ + 2 ≤ s.end_ →
-    s.end_ - s.begin_ ≤ fuel + 1 → (∀ c, Sym.syl c ∈ s.com.symbols → env.hasPhrase d [c] s.strategy = true) →
-    OkAnd (NextPost s) (PhraseSel.next.go env d fuel s) := by
+/-- **`PhraseSelector::next`**: the bounded loop (`for _ in 0..len`): every round moves to a range that is again
+    a non-empty run of syllables anchored like the one before (one symbol shorter, or — wrapping around —
+    up to the break point); it ends at the first range with a phrase, or after the last round back on the
+    range it started from.  No dictionary hypothesis (F03 repair: the loop used to spin forever when no
+    range had a phrase). -/
+theorem next_go_ok (d : D) (s : PhraseSel) (hrs : RangeOK s) : ∀ (fuel : Nat) (t : PhraseSel), RangeOK t →
+    t.com = s.com → t.strategy = s.strategy → Keep s t →
+    OkAnd (NextPost s) (PhraseSel.next.go env s d fuel t) := by
   intro fuel
   induction fuel with
-  | zero => intro s hr h2 h3 _; omega
-  | succ fuel ih =>
-    intro s hr h2 h3 hw
+  | zero =>
+    intro t hr hc hst hk
     simp only [PhraseSel.next.go]
-    by_cases hf : s.forward = true
-    · rw [if_pos hf, if_neg (by simp only [beq_iff_eq]; omega)]
+    exact .ok ⟨hc, hst,
+      ⟨hrs.lt, (by show s.end_ ≤ t.com.symbols.length; rw [hc]; exact hrs.le),
+       (by show AllSyl t.com s.begin_ s.end_; rw [hc]; exact hrs.syl)⟩,
+      ⟨hc, hk.forward, hk.orig, (fun _ => rfl), (fun _ => rfl)⟩⟩
+  | succ fuel ih =>
+    intro t hr hc hst hk
+    -- the range tried in this round
+    have step : ∀ t' : PhraseSel, RangeOK t' → t'.com = t.com → t'.strategy = t.strategy → Keep t t' →
+        OkAnd (NextPost s) (match PhraseSel.rangeHasPhrase env t' d t'.begin_ t'.end_ with
+          | .ok true => .ok t'
+          | .ok false => PhraseSel.next.go env s d fuel t'
+          | .panic p => .panic p
+          | .outOfFuel => .outOfFuel) := by
+      intro t' hr' hc' hst' hk'
+      rw [rangeHasPhrase_ok _ d (Nat.le_of_lt hr'.lt) hr'.le]
+      cases env.hasPhrase d (sylPrefix (List.take (t'.end_ - t'.begin_) (List.drop t'.begin_ t'.com.symbols))) t'.strategy with
+      | true => exact .ok ⟨hc'.trans hc, hst'.trans hst, hr', hk.trans hk'⟩
+      | false => exact ih t' hr' (hc'.trans hc) (hst'.trans hst) (hk.trans hk')
+    simp only [PhraseSel.next.go]
+    by_cases hf : t.forward = true
+    · rw [if_pos hf, if_neg (by simp only [beq_iff_eq]; have := hr.lt; omega)]
       try dsimp only
-      rw [if_neg (by simp only [beq_iff_eq]; omega)]
-      have hr' : RangeOK { s with end_ := s.end_ - 1 } :=
-        ⟨by show s.begin_ < s.end_ - 1; omega, by show s.end_ - 1 ≤ s.com.symbols.length; have := hr.le; omega,
-         fun j a b => hr.syl j a (by have : j < s.end_ - 1 := b; omega)⟩
-      rw [rangeHasPhrase_ok _ d (by show s.begin_ ≤ s.end_ - 1; omega) hr'.le]
-      cases hb : env.hasPhrase d (sylPrefix (List.take (s.end_ - 1 - s.begin_) (List.drop s.begin_ s.com.symbols))) s.strategy with
-      | true => exact .ok ⟨rfl, rfl, hr', Keep.setEnd hf _⟩
-      | false =>
-        dsimp only
-        have hlong : s.begin_ + 2 ≤ s.end_ - 1 := by
-          rcases Nat.lt_or_ge (s.begin_ + 1) (s.end_ - 1) with hh | hh
-          · omega
-          · exfalso
-            have := single_true (env := env) d { s with end_ := s.end_ - 1 } hr' (by show s.end_ - 1 = s.begin_ + 1; omega) hw
-            rw [rangeHasPhrase_ok _ d (by show s.begin_ ≤ s.end_ - 1; omega) hr'.le] at this
-            injection this with this
-            rw [this] at hb; cases hb
-        obtain ⟨s', hq, hp⟩ := ih { s with end_ := s.end_ - 1 } hr' hlong (by show s.end_ - 1 - s.begin_ ≤ fuel + 1; omega) hw
-        exact ⟨s', hq, ⟨hp.com, hp.strategy, hp.range, (Keep.setEnd hf _).trans hp.keep⟩⟩
+      by_cases hwrap : t.begin_ = t.end_ - 1
+      · rw [if_pos (by simp only [beq_iff_eq]; exact hwrap)]
+        obtain ⟨n1, n2, n3, n4⟩ := nbp_spec t (c := t.begin_) (by have := hr.le; have := hr.lt; omega)
+        have n4 := n4 (hr.syl t.begin_ (Nat.le_refl _) hr.lt)
+        exact step { t with end_ := t.nextBreakPoint t.begin_ } ⟨n4, n2, n3⟩ rfl rfl (Keep.setEnd hf _)
+      · rw [if_neg (by simp only [beq_iff_eq]; exact hwrap)]
+        exact step { t with end_ := t.end_ - 1 }
+          ⟨by show t.begin_ < t.end_ - 1; have := hr.lt; omega,
+           by show t.end_ - 1 ≤ t.com.symbols.length; have := hr.le; omega,
+           fun j a b => hr.syl j a (by have : j < t.end_ - 1 := b; omega)⟩ rfl rfl (Keep.setEnd hf _)
     · rw [if_neg hf]
       try dsimp only
-      rw [if_neg (by simp only [beq_iff_eq]; omega)]
-      have hr' : RangeOK { s with begin_ := s.begin_ + 1 } :=
-        ⟨by show s.begin_ + 1 < s.end_; omega, hr.le,
-         fun j a b => hr.syl j (by have : s.begin_ + 1 ≤ j := a; omega) b⟩
-      rw [rangeHasPhrase_ok _ d (by show s.begin_ + 1 ≤ s.end_; omega) hr'.le]
-      cases hb : env.hasPhrase d (sylPrefix (List.take (s.end_ - (s.begin_ + 1)) (List.drop (s.begin_ + 1) s.com.symbols))) s.strategy with
-      | true => exact .ok ⟨rfl, rfl, hr', Keep.setBegin hf _⟩
-      | false =>
-        dsimp only
-        have hlong : s.begin_ + 1 + 2 ≤ s.end_ := by
-          rcases Nat.lt_or_ge (s.begin_ + 2) s.end_ with hh | hh
-          · omega
-          · exfalso
-            have := single_true (env := env) d { s with begin_ := s.begin_ + 1 } hr' (by show s.end_ = s.begin_ + 1 + 1; omega) hw
-            rw [rangeHasPhrase_ok _ d (by show s.begin_ + 1 ≤ s.end_; omega) hr'.le] at this
-            injection this with this
-            rw [this] at hb; cases hb
-        obtain ⟨s', hq, hp⟩ := ih { s with begin_ := s.begin_ + 1 } hr' hlong (by show s.end_ - (s.begin_ + 1) ≤ fuel + 1; omega) hw
-        exact ⟨s', hq, ⟨hp.com, hp.strategy, hp.range, (Keep.setBegin hf _).trans hp.keep⟩⟩
+      by_cases hwrap : t.begin_ + 1 = t.end_
+      · rw [if_pos (by simp only [beq_iff_eq]; exact hwrap)]
+        obtain ⟨a1, a2⟩ := apbp_spec t (c := t.begin_ + 1 - 1) (by have := hr.le; have := hr.lt; omega)
+        have hall : AllSyl t.com (t.afterPreviousBreakPoint (t.begin_ + 1 - 1)) t.end_ := by
+          intro j h1 h2
+          rcases Nat.lt_or_ge j (t.begin_ + 1 - 1) with h3 | h3
+          · exact a2 j h1 h3
+          · exact hr.syl j (by omega) h2
+        exact step { t with begin_ := t.afterPreviousBreakPoint (t.begin_ + 1 - 1) }
+          ⟨by show t.afterPreviousBreakPoint (t.begin_ + 1 - 1) < t.end_; omega, hr.le, hall⟩ rfl rfl (Keep.setBegin hf _)
+      · rw [if_neg (by simp only [beq_iff_eq]; exact hwrap)]
+        exact step { t with begin_ := t.begin_ + 1 }
+          ⟨by show t.begin_ + 1 < t.end_; have := hr.lt; omega, hr.le,
+           fun j a b => hr.syl j (by have : t.begin_ + 1 ≤ j := a; omega) b⟩ rfl rfl (Keep.setBegin hf _)
 
 /-- **`PhraseSelector::next`** -/
-theorem next_ok (d : D) (s : PhraseSel) (hr : RangeOK s)
-    (hw : ∀ c, Sym.syl c ∈ s.com.symbols → env.hasPhrase d [c] s.strategy = true) :
-    OkAnd (NextPost s) (PhraseSel.next env s d) := by
+theorem next_ok (d : D) (s : PhraseSel) (hr : RangeOK s) : OkAnd (NextPost s) (PhraseSel.next env s d) := by
   unfold PhraseSel.next
-  rcases Nat.lt_or_ge (s.begin_ + 1) s.end_ with hlong | hshort
-  · exact next_go_shrink d _ s hr (by omega) (by simp only [Composition.len]; have := hr.le; omega) hw
-  · have he : s.end_ = s.begin_ + 1 := by have := hr.lt; omega
-    -- one wrap-around step, then the shrinking phase
-    obtain ⟨f, hf4, hfge⟩ : ∃ f, 2 * s.com.len + 4 = f + 1 ∧ 2 * s.com.len + 3 ≤ f := ⟨_, rfl, Nat.le_refl _⟩
-    rw [hf4]
-    simp only [PhraseSel.next.go]
-    by_cases hf : s.forward = true
-    · rw [if_pos hf, if_neg (by simp only [beq_iff_eq]; omega)]
-      try dsimp only
-      rw [if_pos (by simp only [beq_iff_eq]; omega)]
-      obtain ⟨n1, n2, n3, n4⟩ := nbp_spec s (c := s.begin_) (by have := hr.le; omega)
-      have n4 := n4 (hr.syl s.begin_ (Nat.le_refl _) hr.lt)
-      have hr' : RangeOK { s with end_ := s.nextBreakPoint s.begin_ } := ⟨n4, n2, n3⟩
-      rw [rangeHasPhrase_ok _ d (by show s.begin_ ≤ s.nextBreakPoint s.begin_; omega) hr'.le]
-      cases hb : env.hasPhrase d (sylPrefix (List.take (s.nextBreakPoint s.begin_ - s.begin_) (List.drop s.begin_ s.com.symbols))) s.strategy with
-      | true => exact .ok ⟨rfl, rfl, hr', Keep.setEnd hf _⟩
-      | false =>
-        dsimp only
-        have hlong : s.begin_ + 2 ≤ s.nextBreakPoint s.begin_ := by
-          rcases Nat.lt_or_ge (s.begin_ + 1) (s.nextBreakPoint s.begin_) with hh | hh
-          · omega
-          · exfalso
-            have := single_true (env := env) d { s with end_ := s.nextBreakPoint s.begin_ } hr'
-              (by show s.nextBreakPoint s.begin_ = s.begin_ + 1; omega) hw
-            rw [rangeHasPhrase_ok _ d (by show s.begin_ ≤ s.nextBreakPoint s.begin_; omega) hr'.le] at this
-            injection this with this
-            rw [this] at hb; cases hb
-        obtain ⟨s', hq, hp⟩ := next_go_shrink (env := env) d f { s with end_ := s.nextBreakPoint s.begin_ } hr' hlong
-          (by show s.nextBreakPoint s.begin_ - s.begin_ ≤ f + 1; simp only [Composition.len] at hfge; omega) hw
-        exact ⟨s', hq, ⟨hp.com, hp.strategy, hp.range, (Keep.setEnd hf _).trans hp.keep⟩⟩
-    · rw [if_neg hf]
-      try dsimp only
-      rw [if_pos (by simp only [beq_iff_eq]; omega)]
-      obtain ⟨a1, a2⟩ := apbp_spec s (c := s.begin_ + 1 - 1) (by have := hr.le; omega)
-      have hall : AllSyl s.com (s.afterPreviousBreakPoint (s.begin_ + 1 - 1)) s.end_ := by
-        intro j h1 h2
-        rcases Nat.lt_or_ge j (s.begin_ + 1 - 1) with h3 | h3
-        · exact a2 j h1 h3
-        · exact hr.syl j (by omega) h2
-      have hr' : RangeOK { s with begin_ := s.afterPreviousBreakPoint (s.begin_ + 1 - 1) } :=
-        ⟨by show s.afterPreviousBreakPoint (s.begin_ + 1 - 1) < s.end_; omega, hr.le, hall⟩
-      rw [rangeHasPhrase_ok _ d (by show s.afterPreviousBreakPoint (s.begin_ + 1 - 1) ≤ s.end_; omega) hr'.le]
-      cases hb : env.hasPhrase d (sylPrefix (List.take (s.end_ - s.afterPreviousBreakPoint (s.begin_ + 1 - 1))
-          (List.drop (s.afterPreviousBreakPoint (s.begin_ + 1 - 1)) s.com.symbols))) s.strategy with
-      | true => exact .ok ⟨rfl, rfl, hr', Keep.setBegin hf _⟩
-      | false =>
-        dsimp only
-        have hlong : s.afterPreviousBreakPoint (s.begin_ + 1 - 1) + 2 ≤ s.end_ := by
-          rcases Nat.lt_or_ge (s.afterPreviousBreakPoint (s.begin_ + 1 - 1) + 1) s.end_ with hh | hh
-          · omega
-          · exfalso
-            have := single_true (env := env) d { s with begin_ := s.afterPreviousBreakPoint (s.begin_ + 1 - 1) } hr'
-              (by show s.end_ = s.afterPreviousBreakPoint (s.begin_ + 1 - 1) + 1; omega) hw
-            rw [rangeHasPhrase_ok _ d (by show s.afterPreviousBreakPoint (s.begin_ + 1 - 1) ≤ s.end_; omega) hr'.le] at this
-            injection this with this
-            rw [this] at hb; cases hb
-        obtain ⟨s', hq, hp⟩ := next_go_shrink (env := env) d f
-          { s with begin_ := s.afterPreviousBreakPoint (s.begin_ + 1 - 1) } hr' hlong
-          (by show s.end_ - s.afterPreviousBreakPoint (s.begin_ + 1 - 1) ≤ f + 1
-              simp only [Composition.len] at hfge; have := hr.le; omega) hw
-        exact ⟨s', hq, ⟨hp.com, hp.strategy, hp.range, (Keep.setBegin hf _).trans hp.keep⟩⟩
+  exact next_go_ok d s hr _ s hr rfl rfl (Keep.refl s)
 
 /-! ## Down / Space -/
 
-theorem selDownSpace_ok (hE : EnvOK env G) {sh : Shared D L} (h : ShInv env G sh) {s : Selecting}
-    (hs : SelInv env sh s) : SelResOK env G (selDownSpace env s sh) := by
+theorem selDownSpace_ok (hE : EnvOK env G) {sh : Shared D L} (h : ShInv env G w sh) {s : Selecting}
+    (hs : SelInv env w sh s) : SelResOK env G w (selDownSpace env s sh) := by
   obtain ⟨tp, hq, _⟩ := totalPage_ok hE h hs
   unfold selDownSpace
   rw [hq]
@@ -165,12 +104,12 @@ theorem selDownSpace_ok (hE : EnvOK env G) {sh : Shared D L} (h : ShInv env G sh
     split
     · next p hp =>
       rw [hp] at h1
-      obtain ⟨p', hq', hn⟩ := next_ok (env := env) sh.dict p ⟨h1.lt, h1.le, h1.syl⟩ h1.word
+      obtain ⟨p', hq', hn⟩ := next_ok (env := env) sh.dict p ⟨h1.lt, h1.le, h1.syl⟩
       rw [hq']
       refine .ok ⟨h, fun _ _ => ⟨?_, fun _ => .inl ⟨p', rfl⟩⟩, fun st hst => (by cases hst)⟩
-      show PhraseOK env sh p'
-      exact ⟨hn.com.trans h1.com, hn.range.lt, hn.range.le, hn.range.syl, fun c hc => by
-        rw [hn.strategy]; exact h1.word c (by rw [← hn.com]; exact hc), h1.anchor.keep hn.keep⟩
+      show PhraseOK env w sh p'
+      exact ⟨hn.com.trans h1.com, hn.range.lt, hn.range.le, hn.range.syl, fun hw c hc => by
+        rw [hn.strategy]; exact h1.word hw c (by rw [← hn.com]; exact hc), h1.anchor.keep hn.keep⟩
     · next hns =>
       refine .ok ⟨h, fun _ _ => ⟨?_, fun ha => ?_⟩, fun st hst => (by cases hst)⟩
       · exact hs.sel
@@ -178,9 +117,9 @@ theorem selDownSpace_ok (hE : EnvOK env G) {sh : Shared D L} (h : ShInv env G sh
 
 /-! ## j / k -/
 
-theorem retarget_ok {sh : Shared D L} (h : ShInv env G sh) (s : Selecting)
+theorem retarget_ok {sh : Shared D L} (h : ShInv env G w sh) (s : Selecting)
     (hlt : sh.com.cursor < sh.com.inner.symbols.length) :
-    OkAnd (fun x => ShInv env G x.1 ∧ ∃ s', x.2 = .toState (.selecting s') ∧ SelInv env x.1 s') (retarget env s sh) := by
+    OkAnd (fun x => ShInv env G w x.1 ∧ ∃ s', x.2 = .toState (.selecting s') ∧ SelInv env w x.1 s') (retarget env s sh) := by
   unfold retarget
   have hsym : sh.com.symbol? = some (sh.com.inner.symbols[sh.com.cursor]) := by
     unfold CompEditor.symbol?
@@ -192,11 +131,11 @@ theorem retarget_ok {sh : Shared D L} (h : ShInv env G sh) (s : Selecting)
     simp only [Sym.isSyl, if_true]
     have hk : sh.com.inner.symbols[sh.com.cursor]? = some (Sym.syl k) := by rw [List.getElem?_eq_getElem hlt, hx]
     obtain ⟨p, hq, p1, p2, p3, p4, p5, p6, _, _⟩ := init_ok (env := env) (!sh.options.phraseChoiceRearward) sh.options.lookupStrategy
-      sh.com.inner sh.com.cursor sh.dict hlt ⟨k, hk⟩ (fun c hc => (h.word c hc).2)
+      sh.com.inner sh.com.cursor sh.dict hlt ⟨k, hk⟩
     rw [hq]
     refine .ok ⟨h, _, rfl, ?_, fun _ => .inl ⟨p, rfl⟩⟩
-    show PhraseOK env sh p
-    exact ⟨p1, p3, by rw [p1]; exact p4, by rw [p1]; exact p5, (fun c hc => by rw [p2]; rw [p1] at hc; exact (h.word c hc).2), p6⟩
+    show PhraseOK env w sh p
+    exact ⟨p1, p3, by rw [p1]; exact p4, by rw [p1]; exact p5, (fun hw c hc => by rw [p2]; rw [p1] at hc; exact (h.word hw c hc).2), p6⟩
   | chr ch =>
     simp only [Sym.isSyl]
     have hk : sh.com.inner.symbols[sh.com.cursor]? = some (Sym.chr ch) := by rw [List.getElem?_eq_getElem hlt, hx]
@@ -207,8 +146,19 @@ theorem retarget_ok {sh : Shared D L} (h : ShInv env G sh) (s : Selecting)
     | nil => exact .ok ⟨h, _, rfl, h.symOK, fun _ => .inr ⟨ch, hk⟩⟩
     | cons a as => exact .ok ⟨h, _, rfl, rfl, fun _ => .inr ⟨ch, hk⟩⟩
 
-theorem selMove_ok {sh : Shared D L} (h : ShInv env G sh) {s : Selecting} (hs : SelInv env sh s) (isJ : Bool) :
-    SelResOK env G (selMove env s sh isJ) := by
+/-- the end of the `j` / `k` arms: a list without candidates is closed (saved cursor restored) -/
+theorem closeIfEmpty_ok (hE : EnvOK env G) {r : SelRes D L} (h : ShInv env G w r.shared) (hs : SelInv env w r.shared r.sel)
+    (ht : r.trans = .spin .absorb) : SelResOK env G w (closeIfEmpty env r) := by
+  obtain ⟨tp, hq, _⟩ := totalPage_ok hE h hs
+  unfold closeIfEmpty
+  rw [hq]
+  dsimp only
+  split
+  · exact .ok ⟨cancel_inv h, fun b hb => (by cases hb), fun st hst => (by cases hst; trivial)⟩
+  · exact .ok ⟨h, fun _ _ => hs, fun st hst => (by rw [ht] at hst; cases hst)⟩
+
+theorem selMove_ok (hE : EnvOK env G) {sh : Shared D L} (h : ShInv env G w sh) {s : Selecting} (hs : SelInv env w sh s) (isJ : Bool) :
+    SelResOK env G w (selMove env s sh isJ) := by
   unfold selMove
   split
   · exact .ok ⟨h, fun _ _ => hs, fun st hst => (by cases hst)⟩
@@ -236,18 +186,18 @@ theorem selMove_ok {sh : Shared D L} (h : ShInv env G sh) {s : Selecting} (hs : 
         simp only [CompEditor.moveCursor, Composition.len] at he ⊢; omega
     dsimp only
     have key : ∀ com : CompEditor, CedInv com → com.inner = sh.com.inner → com.cursor < sh.com.inner.symbols.length →
-        SelResOK env G (match retarget env s { sh with com := com } with
-          | .ok (sh', .toState (.selecting s')) => .ok ⟨sh', s', .spin .absorb⟩
-          | .ok (sh', _) => .ok ⟨sh', s, .spin .absorb⟩
+        SelResOK env G w (match retarget env s { sh with com := com } with
+          | .ok (sh', .toState (.selecting s')) => closeIfEmpty env ⟨sh', s', .spin .absorb⟩
+          | .ok (sh', _) => closeIfEmpty env ⟨sh', s, .spin .absorb⟩
           | .panic q => .panic q
           | .outOfFuel => .outOfFuel) := by
       intro com hc hin hcur
-      have h1 : ShInv env G { sh with com := com } := h.setComSame hc (by rw [hin])
+      have h1 : ShInv env G w { sh with com := com } := h.setComSame hc (by rw [hin])
       obtain ⟨⟨sh', t⟩, hq, hi, s', ht, hs'⟩ := retarget_ok h1 s (by show com.cursor < com.inner.symbols.length; rw [hin]; exact hcur)
       rw [hq]
       simp only at ht
       subst ht
-      exact .ok ⟨hi, fun _ _ => hs', fun st hst => (by cases hst)⟩
+      exact closeIfEmpty_ok hE (r := ⟨sh', s', .spin .absorb⟩) hi hs' rfl
     cases isJ with
     | true =>
       simp only [if_true]
@@ -258,18 +208,18 @@ theorem selMove_ok {sh : Shared D L} (h : ShInv env G sh) {s : Selecting} (hs : 
 
 /-! ## digits, and all of `Selecting::next` for lists that are not symbol tables -/
 
-theorem selDigit_ok (hE : EnvOK env G) {sh : Shared D L} (h : ShInv env G sh) {s : Selecting}
-    (hs : SelInv env sh s) (c : Nat) : SelResOK env G (selDigit env s sh c) := by
+theorem selDigit_ok (hE : EnvOK env G) {sh : Shared D L} (h : ShInv env G w sh) {s : Selecting}
+    (hs : SelInv env w sh s) (c : Nat) : SelResOK env G w (selDigit env s sh c) := by
   obtain ⟨⟨s', sh', t⟩, hq, h1, h2, h3⟩ := select_ok hE h hs (c - 1)
   unfold selDigit
   rw [hq]
   exact .ok ⟨h1, h2, h3⟩
 
-theorem selectingNext_ok (hE : EnvOK env G) {sh : Shared D L} {s : Selecting} (h : ShInv env G sh)
-    (hs : SelInv env sh s) (ev : KeyEvent) : SelResOK env G (selectingNext env s sh ev) := by
-  have leafSpin : ∀ b, SelResOK env G (.ok ⟨sh, s, .spin b⟩) :=
+theorem selectingNext_ok (hE : EnvOK env G) {sh : Shared D L} {s : Selecting} (h : ShInv env G w sh)
+    (hs : SelInv env w sh s) (ev : KeyEvent) : SelResOK env G w (selectingNext env s sh ev) := by
+  have leafSpin : ∀ b, SelResOK env G w (.ok ⟨sh, s, .spin b⟩) :=
     fun b => .ok ⟨h, fun _ _ => hs, fun st hst => (by cases hst)⟩
-  have leafTo : ∀ sh' : Shared D L, ShInv env G sh' → SelResOK env G (.ok ⟨sh', s, .toState .entering⟩) :=
+  have leafTo : ∀ sh' : Shared D L, ShInv env G w sh' → SelResOK env G w (.ok ⟨sh', s, .toState .entering⟩) :=
     fun sh' h' => .ok ⟨h', fun b hb => (by cases hb), fun st hst => (by cases hst; trivial)⟩
   unfold selectingNext
   refine selResOK_ite (fun _ => leafSpin _) fun _ => ?_
@@ -277,8 +227,8 @@ theorem selectingNext_ok (hE : EnvOK env G) {sh : Shared D L} {s : Selecting} (h
   refine selResOK_ite (fun _ => leafTo _ (cancel_inv (h.congr rfl rfl rfl rfl rfl rfl))) fun _ => ?_
   refine selResOK_ite (fun _ => leafTo _ (cancel_inv h)) fun _ => ?_
   refine selResOK_ite (fun _ => selDownSpace_ok hE h hs) fun _ => ?_
-  refine selResOK_ite (fun _ => selMove_ok h hs _) fun _ => ?_
-  refine selResOK_ite (fun _ => selMove_ok h hs _) fun _ => ?_
+  refine selResOK_ite (fun _ => selMove_ok hE h hs _) fun _ => ?_
+  refine selResOK_ite (fun _ => selMove_ok hE h hs _) fun _ => ?_
   refine selResOK_ite (fun _ => selPrevPage_ok hE h hs) fun _ => ?_
   refine selResOK_ite (fun _ => selNextPage_ok hE h hs) fun _ => ?_
   refine selResOK_ite (fun _ => selDigit_ok hE h hs _) fun _ => ?_
